@@ -386,3 +386,39 @@ def _shares(ck):
                        ' [the order, classes and kinds in the .ui are those of the current document only if the file is this run\'s form]')
     c15.run(s15)
     ck.floor('R11.8', s15.count, 6, 'shared C15 obligations on the .ui write')
+
+    # an object is tested against a well-known class by derivation, never by identity: an instance of a component (or of any subclass) is
+    # a combo box if its class derives from QComboBox
+    ck.rule('R11.9', 'tests against the well-known classes are made with is_derived_from, never with ==')
+    L = ck.facts.lib
+    n_d, eqs = 0, []
+    # the well-known classes that stand for a family (some place tests them by derivation); value classes such as QBrush or QFont have
+    # no subclasses in this world and are compared by identity
+    family = set()
+    cmp_sites = []
+    for fn in L.fn_list:
+        if not fn['path'].startswith(('uigen::', '<uigen::')) or fn.get('x') in ('Clone', 'Debug', 'PartialEq'):
+            continue
+        for n in walk(fn['body']):
+            if n.get('k') == 'MCall' and n.get('m') == 'is_derived_from':
+                fs = [x.get('f') for a in n['args'] for x in walk(a) if x.get('k') == 'Field' and 'KnownClasses' in (x.get('adt') or '')]
+                if fs:
+                    n_d += 1
+                    family.update(fs)
+            if n.get('k') == 'Binary' and n.get('op') in ('Eq', 'Ne'):
+                fs = [x.get('f') for sd in (n['l'], n['r']) for x in walk(sd) if x.get('k') == 'Field' and 'KnownClasses' in (x.get('adt') or '')]
+                if fs:
+                    cmp_sites.append((fn, n, fs))
+    # frozen from the tree as reviewed: the QObject-derived well-known classes (the others are value classes)
+    FAMILY = {'action', 'combo_box', 'form_layout', 'grid_layout', 'hbox_layout', 'layout', 'list_widget', 'menu', 'object', 'push_button', 'spacer_item', 'tab_widget',
+              'table_view', 'tree_view', 'vbox_layout', 'widget'}
+    known = {f['name'] for v in (L.adts.get('uigen::context::KnownClasses') or {}).get('variants', []) for f in v['fields']}
+    ck.ob('R11.9', 'family-list-current', FAMILY <= known and family <= FAMILY, '', 'classes tested by derivation today: %s' % sorted(family) if FAMILY <= known and family <= FAMILY else
+          'the reviewed list of QObject-derived well-known classes is out of date: unknown %s, newly tested by derivation %s' % (sorted(FAMILY - known), sorted(family - FAMILY)))
+    eqs = [(fn, n) for fn, n, fs in cmp_sites if set(fs) & FAMILY]
+    for fn, n in eqs:
+        ck.ob('R11.9', 'known-class-by-derivation|%s' % short(fn['path']), False, L.loc(n),
+              '`%s` compares the class of the object with a well-known class by identity: an instance of a subclass or of a QML component rooted at that class is not recognised '
+              '(its pseudo properties are not handled, it is dispatched as something else)' % pp(n, maxlen=70), fn=fn['path'])
+    ck.ob('R11.9', 'no-identity-test-against-known-classes', not eqs, '', '%d is_derived_from(&ctx.classes.X) tests, %d identity comparisons' % (n_d, len(eqs)))
+    ck.floor('R11.9', n_d, 10, 'is_derived_from tests against well-known classes in uigen')
